@@ -37,6 +37,12 @@ tree with the imported tree, the model's marks / from / merge lists with the str
 exporter wrote and the offset the parser read with `formatZone` / `parseZone`, the committer of the imported
 revision with `committerRoundtrip` (variant probed: does the importer join an empty name without the blank),
 the stream's `reset refs/tags/…` commands with `exportTags` and the imported tag table with `importTags`.
+Besides the random histories every run contains 6 (thorough: all 32) variants of a directed merge family: the
+mainline renames an entry a -> b, a side branch keeps it at a, and the merge creates an unrelated NEW entry at
+the vacated path a (sub-directory or not, with or without a further rename b -> c in the merge, side branch
+modifying the entry or not, file / symlink on either side) - relative to the first parent an addition while
+another parent's inventory still holds the renamed entry's file id at that path (seeded change C44b: the
+importer then reuses that id: InconsistentDelta, or the renamed entry silently disappears).
 Independently of the histories: `check_ref_format` against `validRef` on ~300 names built from the characters
 the rules mention, `_get_name_email` against `splitCommitter` and the parser's `_who_when` against `parseWho`
 on ~170 committers / committer lines built from `<`, `>`, blanks, tabs and address syntax (strings the
